@@ -14,6 +14,7 @@ import (
 	_ "verifharness/fam/conc"
 	_ "verifharness/fam/determ"
 	_ "verifharness/fam/enums"
+	_ "verifharness/fam/hazard"
 	_ "verifharness/fam/ident"
 	_ "verifharness/fam/indent"
 	_ "verifharness/fam/numbers"
